@@ -176,6 +176,9 @@ def api_level(ctx, thorough):
     for gen in (4, 5):
         for sc in fixed + [_api_scenario(rng) for _ in range(n)]:
             cases.append((gen, sc))
+    # an AirTouch 5 system without zones finishes its handshake through the echoed zone status request: the heartbeat runs there too
+    cases.append((5, dict(inst=fullstack.INST0, version_answers=[None], horizon=8000)))
+    cases.append((5, dict(inst=fullstack.INST0, version_answers=[1, 239, None], horizon=12000, chatter=701)))
     lines = []
     runs = []
     for gen, sc in cases:
